@@ -23,6 +23,8 @@ type Finding struct {
 	What     string `json:"what"`
 	Request  string `json:"request,omitempty"`
 	Detail   string `json:"detail,omitempty"`
+	// Class names a precisely delimited family of inputs (used to match known findings)
+	Class string `json:"class,omitempty"`
 }
 
 type Meta struct {
